@@ -550,7 +550,8 @@ class C20(World):
         "path. Each attempt must return geometry or raise an ordinary Exception within fixed step and memory budgets proportional to the input, close every file it opened, "
         "and leave the process able to load a valid file. The worker that dies is attributed to its journalled run. Proportionality is also asked directly by a doubling "
         "experiment (documents of n, 2n, 4n independent trivial items, 20 families: the second increment of the line count must be about twice the first), and a CPU-timer "
-        "backstop raises the budget exception inside loops the line counter cannot see (native code that runs for many CPU-seconds without one monitored line)."
+        "backstop raises the budget exception inside loops the line counter cannot see (native code that runs for many CPU-seconds without one monitored line). Once per run, "
+        "8 fixed CPU-time experiments (n and 16 n items, child interpreter) look for superlinear work done inside single lines."
     )
     LEVEL_NOTE = (
         "Step counting sees Python lines only (charset_normalizer, a chunk-sampling detector called by decode_text, is excluded for speed) (loops inside C extensions are bounded by the block wall-clock watchdog); memory is tracemalloc peak (numpy buffers included, "
